@@ -264,8 +264,20 @@ def oracle_bytes(lo, hi):
     return bytes(cells)[:n]
 
 
+def frame_valid_if(self, t):
+    """a reported message type belongs to a frame that passed validation and is still in
+    frame_buf (a discarded frame never overwrites it)"""
+    h = self.frame_buf.header
+    return implies(t != 0, valid_address(h.from_node) and valid_address(h.to_node)
+                   and implies(t >= 192, h.message_type == t))
+
+
 def inv_update_loop(self, ret_val):
-    return req_update(self) and 0 <= ret_val and ret_val <= 255
+    return req_update(self) and 0 <= ret_val and ret_val <= 255 and frame_valid_if(self, ret_val)
+
+
+def ens_update_frame(self, result, exc):
+    return exc is None and 0 <= result and result <= 255 and frame_valid_if(self, result)
 
 
 def havoc_update_loop(self):
@@ -285,19 +297,42 @@ def abs_net_update(self):
     require(node_ok(self), "_net_update: node listening")
     havoc_update(self)
     assume(node_ok(self))
-    return oracle_int(0, 255)
+    t = oracle_int(0, 255)
+    assume(frame_valid_if(self, t))
+    return t
 
 
 def abs_write(self, write_direct, send_type):
     require(node_ok(self) and target_ok(self, write_direct, send_type), "_write: node listening, valid target")
-    havoc_radio_io(self)
     h = self.frame_buf.header
-    h.message_type = oracle_int(0, 255)
-    h.to_node = oracle_int(0, 0xFFFF)
+    acky = 65 <= h.message_type and h.message_type <= 191 and (send_type == 0 or send_type == 3)
+    havoc_radio_io(self)
+    if acky:
+        # an acknowledgeable type may make _write() wait for the NETWORK_ACK; every frame received
+        # meanwhile is unpacked into frame_buf (even one that fails validation afterwards)
+        havoc_update(self)
+    if h.message_type == 150 and h.reserved == 131:
+        h.message_type = oracle_int(0, 255)       # looped-back external-data fragment: retyped by the queue
+    if send_type == 1:
+        # a routed frame can be followed by a NETWORK_ACK, which reuses the frame buffer
+        h.message_type = oracle_int(0, 255)
+        h.to_node = oracle_int(0, 0xFFFF)
     h.reserved = oracle_int(0, 255)
     self.queue.n = oracle_int(0, 1000)
     assume(node_ok(self))
     return oracle_int(0, 1) == 1
+
+
+def ens_write_hdr(self, old_self, send_type):
+    """for a type that is never acknowledged at network level _write leaves the caller's frame
+    alone: origin, id and message; type and destination too unless it is a routed frame"""
+    h = self.frame_buf.header
+    oh = old_self.frame_buf.header
+    acky = 65 <= oh.message_type and oh.message_type <= 191 and (send_type == 0 or send_type == 3)
+    ext = oh.message_type == 150 and oh.reserved == 131   # external-data fragment looped back: retyped by reference
+    return implies(not acky and not ext, h.from_node == oh.from_node and h.frame_id == oh.frame_id
+                   and bytes(self.frame_buf.message) == bytes(old_self.frame_buf.message)
+                   and implies(send_type != 1, h.message_type == oh.message_type and h.to_node == oh.to_node))
 
 
 def req_update(self):
@@ -437,11 +472,11 @@ CONTRACTS = [
                                                 ("loopback", R + "ens_wtp_loopback"), ("mc_no_ack", R + "ens_wtp_aa")], raises=(),
              policy=dict(POL, **{M + "_tx_standby": "ref:" + R + "abs_tx_standby"}), loops=LOOPS_WTP, props=["C07", "C15"], replayable=False),
     Contract("C07._write", M + "_write", {"self": net_schema(), "write_direct": Int(0, 4095), "send_type": Int(0, 4)},
-             requires=[R + "req_write"], ensures=DIAG + [("listening", R + "ens_node_ok")], raises=(), policy=POL_ABS,
+             requires=[R + "req_write"], ensures=DIAG + [("listening", R + "ens_node_ok"), ("header", R + "ens_write_hdr")], raises=(), policy=POL_ABS,
              loops={(M + "_write", 0): LoopSpec(R + "inv_ack_wait", havoc=[R + "havoc_update"], frame=R + "fixed_cfg")},
              props=["C07", "C15"], replayable=False),
     Contract("C07._net_update", M + "_net_update", {"self": net_schema()},
-             requires=[R + "req_update"], ensures=[("listening", R + "ens_node_ok")], raises=(), policy=POL_UPD,
+             requires=[R + "req_update"], ensures=[("listening", R + "ens_node_ok"), ("frame_valid", R + "ens_update_frame")], raises=(), policy=POL_UPD,
              loops={(M + "_net_update", 0): LoopSpec(R + "inv_update_loop", havoc=[R + "havoc_update_loop"], frame=R + "fixed_cfg_aa")},
              props=["C07", "C15"], max_paths=20000, replayable=False),
     Contract("C07.update", "rf24_network:RF24NetworkRoutingOnly.update", {"self": net_schema()},
